@@ -1,4 +1,5 @@
 """C17 - margin histories interpolate within bounds; irregular histories are discarded."""
+import contextlib
 import math
 import warnings
 
@@ -401,6 +402,26 @@ def run_case(spec, inputs=None):
     return out
 
 
+@contextlib.contextmanager
+def _pandas2_groupby_apply():
+    """DataFrameGroupBy.apply as pandas 2 did it for the one use in _extrapolate_unit_margin: the function receives the
+    group's rows INCLUDING the grouping column and the results are concatenated under the group keys."""
+    from pandas.core.groupby.generic import DataFrameGroupBy
+
+    orig = DataFrameGroupBy.apply
+
+    def apply2(self, func, *a, **k):
+        keys = self.keys
+        pieces = {name: func(g, *a, **k) for name, g in self}
+        return pd.concat(pieces, names=[keys] if isinstance(keys, str) else list(keys))
+
+    DataFrameGroupBy.apply = apply2
+    try:
+        yield
+    finally:
+        DataFrameGroupBy.apply = orig
+
+
 def extrapolation_monitor(spec, as_int):
     """Real BootstrapElectionModel._extrapolate_unit_margin on a state with >=5 reporting counties of which some
     have irregular histories: replacing the irregular units' histories by other irregular histories must not
@@ -450,11 +471,22 @@ def extrapolation_monitor(spec, as_int):
 
     outs = []
     flagged = None
-    for variant in (0, 1):
-        data, rep, non = mk(variant)
+    shimmed = False
+    for variant in (0, 1, 2):
+        # variant 1: the flagged units get other irregular histories; variant 2: the flagged reporting units are not
+        # there at all ("can never contribute" => their absence changes nothing either; this also catches a
+        # contribution that does not depend on what the irregular history looks like)
+        data, rep, non = mk(0 if variant == 2 else variant)
+        if variant == 2:
+            gone = [f for f in (flagged or []) if f in set(rep.geographic_unit_fips)]
+            if not gone or len(rep) - len(gone) < 3:
+                continue
+            data = data[~data.geographic_unit_fips.isin(gone)].reset_index(drop=True)
+            rep = rep[~rep.geographic_unit_fips.isin(gone)].reset_index(drop=True)
         vdh = object.__new__(VersionedDataHandler)
         vdh.data = data
-        m = BootstrapElectionModel({"features": ["baseline_normalized_margin"]}, versioned_data_handler=vdh)
+        m = BootstrapElectionModel({"features": ["baseline_normalized_margin"], "min_extrapolating_units": 3},
+                                   versioned_data_handler=vdh)
         import warnings
 
         with warnings.catch_warnings(), np.errstate(all="ignore"):
@@ -466,25 +498,38 @@ def extrapolation_monitor(spec, as_int):
             fl = sorted(set(flags[flags.error_type != "none"].geographic_unit_fips))
             if variant == 0:
                 flagged = fl
-            elif fl != flagged:
+            elif variant == 1 and fl != flagged:
+                return [], dict(extrap_skipped_flag_sets_differ=1)
+            elif variant == 2 and fl != [f for f in flagged if f not in gone]:
                 return [], dict(extrap_skipped_flag_sets_differ=1)
             try:
                 pred, std = m._extrapolate_unit_margin(rep.copy(), non.copy())
             except AttributeError as e:
-                if "geographic_unit_fips" in str(e):
-                    # pandas >= 3 removed the grouping column from groupby.apply frames: the extrapolation step
-                    # itself cannot run in this environment (not a C17 matter); monitor not applicable
+                if "geographic_unit_fips" not in str(e):
+                    raise
+                # pandas >= 3 removed the grouping column from the frames groupby.apply hands to its function: the
+                # extrapolation step as written cannot run in this environment (not a C17 matter).  The real method
+                # is therefore run once more with DataFrameGroupBy.apply behaving as in pandas 2 (group frames
+                # keep the grouping column, result keyed by group), which is the behaviour the code was written
+                # for; the evidence counts these runs separately.
+                shimmed = True
+                try:
+                    with _pandas2_groupby_apply():
+                        pred, std = m._extrapolate_unit_margin(rep.copy(), non.copy())
+                except AttributeError:
                     return [], dict(extrap_unavailable_pandas3=1)
-                raise
         outs.append((np.asarray(pred, dtype=float), np.asarray(std, dtype=float)))
     if not flagged:
         return [], dict(extrap_skipped_nothing_flagged=1)
-    same = all(a.shape == b.shape and np.array_equal(a, b, equal_nan=True) for a, b in zip(outs[0], outs[1]))
-    cnt = dict(extrap_pairs=1, extrap_pairs_with_finite_prediction=int(np.isfinite(outs[0][0]).any()))
+    same = all(a.shape == b.shape and np.array_equal(a, b, equal_nan=True)
+               for o in outs[1:] for a, b in zip(outs[0], o))
+    cnt = dict(extrap_triples_with_flagged_units_removed=int(len(outs) == 3), extrap_pairs=1, extrap_pairs_with_finite_prediction=int(np.isfinite(outs[0][0]).any()),
+               extrap_pairs_under_pandas2_apply_shim=int(shimmed),
+               extrap_predictions_finite=int(np.isfinite(outs[0][0]).sum()))
     if not same:
         return [dict(key="C17/flagged-unit-influences-extrapolation", msg=f"extrapolation changed when only the "
-                     f"histories of flagged units {flagged} changed: {outs[0][0].ravel()[:4]} vs "
-                     f"{outs[1][0].ravel()[:4]}", witness=dict(flagged=flagged))], cnt
+                     f"histories of flagged units {flagged} changed or the units were removed: "
+                     f"{[o[0].ravel()[:4] for o in outs]}", witness=dict(flagged=flagged))], cnt
     return [], cnt
 
 
